@@ -374,7 +374,8 @@ func (pp c07) Run(c *core.Ctx, idx int) {
 			// model
 			exp := map[string]string{}
 			containers := 0
-			exactRange := false
+			// fc.range windows the list it names; lists inside its entries keep all their rows
+			exactRange := true
 			proj := func() {
 				exp = map[string]string{}
 				p.optional = map[string]string{}
@@ -438,22 +439,10 @@ func (pp c07) Run(c *core.Ctx, idx int) {
 			}
 			dropOptional()
 			if diff := mapDiff(exp, got); diff != "" {
-				if p.hasRange && !exactRange {
-					// which convention does the library follow for lists nested below the named one?
-					exactRange = true
-					proj()
-					dropOptional()
-					if mapDiff(exp, got) == "" {
-						c.Count("range_applies_to_named_list_only")
-						goto ok
-					}
-					exactRange = false
-					proj()
-				}
 				c.Violate("projection/"+pset+"/"+mapDiffClass(exp, got), "constrained read differs from the model projection:\n%s\n%s", diff, wit())
 				continue
 			}
-		ok:
+
 			size := "empty"
 			if len(exp) > 0 {
 				size = "some"
